@@ -6,7 +6,10 @@ from .common import *
 
 EVIDENCE = dict(assumptions=[
     'kernel only: compute_fees / compute_fees_saturating / max_htlc_from_capacity and the cross-module agreement with FundedChannel::internal_htlc_satisfies_config',
-    'the path search, liquidity bookkeeping across paths, scorer and completeness are outside the claim'])
+    'C16.d: PaymentPath::update_value_and_recompute_fees, whole function, 1..4 (quick) / 1..5 (thorough) hops; per-hop policies and minima are stubs of CandidateRouteHop::fees / htlc_minimum_msat',
+    'C16.e: one application of the add_entry! macro inside get_route (a region of its MIR; 3 of the 8 expansions in the quick tier, all 8 in the thorough tier) from an arbitrary state: every live local havocked; CandidateRouteHop accessors other than short_channel_id, max_htlc_from_capacity, compute_fees_saturating (uninterpreted; C16.a covers it), the scorer, used_liquidities.get, previously_failed_*.contains (uninterpreted membership), dist[] indexing and the heap push are stubs; src_node_counter == payer_node_counter is tied to src_node_id == our_node_id',
+    'C16.f: one iteration of the used-liquidity bookkeeping loop of get_route from an arbitrary loop-head state; the hash-map entry API is a stub (entry present or absent: free); executions that fail the debug_assert at the end of the body are excluded (it rests on the path-level invariants)',
+    'the order in which the search visits nodes (heap), that the regions compose to a whole valid route, the scorer and completeness are outside the claim'])
 
 
 def opt_parse(toks):
@@ -131,6 +134,9 @@ def run(S):
             'for a channel of known capacity the usable maximum never exceeds the capacity nor htlc_maximum_msat', [b])
     S.no_panic('C16.c.nopanic', E, [], 'max_htlc_from_capacity is total', [b])
     path_fees(S, D)
+    from . import C16_route
+    C16_route.add_entry_step(S, D)
+    C16_route.liquidity_bookkeeping(S, D)
 
 
 def path_fees(S, D):
